@@ -402,6 +402,10 @@ def build_cases(tier):
     add(N=2, R=2, P=3, merge=True, shared=True, weights=(Fraction(1, 4), Fraction(3, 4)), symflags="unperturbed")
     add(N=2, R=3, P=2, merge=True, shared=True, weights=(Fraction(1, 2), Fraction(1, 4), Fraction(1, 4)), symflags="none")
     add(N=2, R=2, P=3, merge=True, identical=True, weights=(Fraction(1, 4), Fraction(3, 4)), symflags="perturbations")
+    # a realization lost in the gradient phase only, with the standard-deviation estimator (metamorphic harness of C03)
+    from .c03 import MetamorphicCase
+    add(MetamorphicCase, N=1, R=3, P=2, failed=(False, False, False), failed_by_count=(1,), pmin=2, estimators=("stddev",), seed=seed,
+        weights=(Fraction(1, 2), Fraction(1, 4), Fraction(1, 4)))
     if tier == "thorough":
         for s in range(1, 6):
             add(N=2, R=2, P=3, symflags="all", seed=seed + s, design=("random", "normal")[s % 2])
